@@ -50,3 +50,16 @@ def flush_gate(ctx, own_kinds=None):
     for v in s["violations"]:
         ctx.violation({"driver": "ckpt_flush_gate"}, {"class": str(v.get("kind")), "driver": "ckpt_flush_gate"},
                       "%s: %s" % (v.get("kind"), json.dumps({k: v[k] for k in v if k != "kind"})[:300]))
+
+
+def stall_wake(ctx):
+    """spec/background/StallWake.tla: a checkpoint's own flushes fill level 0 as well - somebody has to wake the compaction
+    task (a3aa3c7); the pinned variant must still leave the writer stalled for ever. Bound to the code by ckpt_race."""
+    consts = {"L0Limit": 2, "MaxFlushes": ctx.pick(5, 8), "CkptWake": '"wake"'}
+    r = _run(ctx, "background", "StallWake", "repo", consts, ["CompactionScheduled"], props=["WriterGoesOn"])
+    r["constants"] = ["%s=%s" % kv for kv in consts.items()]
+    r["invariants"] = ["CompactionScheduled", "PROPERTY WriterGoesOn"]
+    ctx.add_tlc(r)
+    t = _run(ctx, "background", "StallWake", "none", dict(consts, CkptWake='"none"', MaxFlushes=5), ["CompactionScheduled"], must_pass=False)
+    if "CompactionScheduled" not in t["violated"]:
+        raise core.ToolError('StallWake with CkptWake = "none" no longer violates CompactionScheduled')
